@@ -838,7 +838,7 @@ class C18(check.Check):
     def gen_case(self, seed, i, tier):
         r = seeds.rng(seed, "C18", "case", i)
         acc = r.choice(netgen.ACCELS)
-        d = dict(acc=acc, files=[], cli_cache=None, cwd=r.choice(["tmp", "tmp", "decoy", "bundled", "root"]))
+        d = dict(acc=acc, files=[], cli_cache=None, cwd=r.choice(["tmp", "tmp", "decoy", "bundled", "root", "userparent"]))
         if r.random() < 0.35:
             d["files"].append(dict(kind="bundled", spec="Arm/vela.ini"))
             secs = None
@@ -880,7 +880,10 @@ class C18(check.Check):
         try:
             userdir = os.path.join(root, "user", "cfg")
             os.makedirs(userdir)
-            cwd = {"tmp": os.path.join(root, "work"), "decoy": os.path.join(root, "decoywork"), "bundled": BUNDLED_DIR, "root": "/"}[desc["cwd"]]
+            # ("userparent": the user's files sit exactly two levels below the working directory, i.e. their path relative to it has the
+            # Dir/file.ini form that is reserved for the bundled directory - an absolute path must still mean the user's file)
+            cwd = {"tmp": os.path.join(root, "work"), "decoy": os.path.join(root, "decoywork"), "bundled": BUNDLED_DIR, "root": "/",
+                   "userparent": os.path.join(root, "user")}[desc["cwd"]]
             os.makedirs(os.path.join(root, "work"), exist_ok=True)
             if desc["cwd"] == "decoy":
                 os.makedirs(os.path.join(cwd, "Arm"))
